@@ -136,6 +136,7 @@ def run(ctx):
     r.rule("R9.4", "methods consult self.<list>, never the module-level default", floor=10)
     r.rule("R9.5", "CSS: each kept declaration is dominated by an allow-list test; url() stripped before the gauntlet", floor=4)
     element_gate(ctx)
+    global_substitutions(ctx)
 
     at = repo.func(REL, "Filter.allowed_token")
     cfg = CFG(at.node)
@@ -224,11 +225,18 @@ def uri_gate(ctx, at, cfg):
                             chars.add(arg)
                         elif op == sp.RANGE:
                             chars |= set(range(arg[0], arg[1] + 1))
-                ok_norm = set(range(0, 0x21)) <= chars and norm(sub.args[1]) == "''" and \
-                    norm(sub.args[2]) == "unescape(attrs[%s])" % attr
-                if chars and not set(range(0, 0x21)) <= chars:
+                        elif op == sp.CATEGORY and arg == sp.CATEGORY_SPACE:
+                            chars |= {c for c in range(0x100) if chr(c).isspace()}
+                # white space and the control characters (general category Cc: C0, DEL, C1) are ignored when the scheme is read
+                required = set(range(0, 0x21)) | set(range(0x7f, 0xa0))
+                no_count = len(sub.args) == 3 and not [k for k in sub.keywords if k.arg == "count"]
+                ok_norm = required <= chars and norm(sub.args[1]) == "''" and \
+                    norm(sub.args[2]) == "unescape(attrs[%s])" % attr and no_count
+                if chars and not required <= chars:
                     norm_wrong = "control characters / white space %s are no longer stripped before the scheme is tested" % sorted(
-                        "U+%04X" % c for c in set(range(0, 0x21)) - chars)[:6]
+                        "U+%04X" % c for c in required - chars)[:6]
+                elif not no_count:
+                    norm_wrong = "only a limited number of control-character runs is stripped before the scheme is tested (count argument)"
                 elif norm(sub.args[2]) == "attrs[%s]" % attr:
                     norm_wrong = "character references in the value are no longer decoded (unescape) before the scheme is tested"
     r.idiom("R9.3", ok_norm, "scheme-normalisation", "%s:%d" % (REL, loop.lineno),
@@ -381,6 +389,29 @@ def css(ctx):
             "sanitize_css returns something other than '' or the kept declarations")
 
 
+def global_substitutions(ctx):
+    """R9.6: every substitution the sanitizer uses to strip something (control characters, url(...) references) replaces
+    *all* occurrences: no count argument."""
+    r = ctx.r
+    r.rule("R9.6", "stripping substitutions are global (no count argument)", floor=3)
+    cls = ctx.repo.cls(REL, "Filter")
+    for m in cls.methods.values():
+        for c in walk_no_nested(m.node):
+            if not (isinstance(c, ast.Call) and isinstance(c.func, ast.Attribute) and c.func.attr == "sub"):
+                continue
+            module_level = norm(c.func.value) == "re"
+            npos = 3 if module_level else 2
+            limited = len(c.args) > npos or any(k.arg == "count" for k in c.keywords)
+            cnt = c.args[npos] if len(c.args) > npos else next((k.value for k in c.keywords if k.arg == "count"), None)
+            if limited and isinstance(cnt, ast.Constant) and cnt.value == 0:
+                limited = False         # count=0 means all
+            pat = norm(c.args[0])[:40] if module_level else norm(c.func.value)[:40]
+            r.check("R9.6", not limited, "global-sub::%s::%s" % (m.name, pat), "%s:%d" % (REL, c.lineno),
+                    "%s strips with a limited substitution (count=%s): only the first occurrence(s) of %s are removed, later ones "
+                    "survive in the sanitized value" % (m.qual, norm(cnt) if cnt is not None else "?", pat),
+                    detail={"method": m.name, "pattern": pat})
+
+
 def thorough(ctx):
     from .. import selftest
     selftest.run(ctx, sys.modules[__name__])
@@ -389,6 +420,9 @@ def thorough(ctx):
 def mutants():
     from ..selftest import TextMutant as T
     return [
+        T("svg-url-strip-once", REL, "                                         unescape(attrs[attr]))\n            if (token[\"name\"] in self.svg_allow_local_href",
+          "                                         unescape(attrs[attr]), 1)\n            if (token[\"name\"] in self.svg_allow_local_href", "R9.6"),
+        T("no-c1-strip", REL, "                val_unescaped = re.sub(\"[`\\x00-\\x20\\x7f-\\xa0\\\\s]+\", '',", "                val_unescaped = re.sub(\"[`\\x00-\\x20\\xa0\\\\s]+\", '',", "R9.3"),
         T("comment-through", REL, "        elif token_type == \"Comment\":\n            pass\n        else:\n            return token",
           "        else:\n            return token", "R9.1"),
         T("emptytag-unsanitized", REL, "        if token_type in (\"StartTag\", \"EndTag\", \"EmptyTag\"):\n            name = token[\"name\"]",
